@@ -17,7 +17,7 @@ fn observe(out: &mut String, keys: &[u64]) {
 fn produce(r: &mut Rng, out: &mut String, k: u64, t: u64, only_chunk: bool) {
     let base = k << 16;
     let start = base + *r.pick(&[0u64, 1, 63, 64, 1000, 30000]);
-    match r.below(if only_chunk { 10 } else { 8 }) {
+    match r.below(if only_chunk { 11 } else { 9 }) {
         0 => {
             // one range insert
             writeln!(out, "insert_range b0 in:{} ex:{}", start, start + t).unwrap();
@@ -101,6 +101,33 @@ fn produce(r: &mut Rng, out: &mut String, k: u64, t: u64, only_chunk: bool) {
             writeln!(out, "or {} b0 b0 b12", *r.pick(&["ao", "ar", "rr", "oo"])).unwrap();
         }
         8 => {
+            // the chunk is what intersection_with_serialized leaves of a FULL chunk against a run container holding t values
+            // in a few runs (t - runs <= 4096 < t is the shape whose decoded store is sized too small), or of a range that
+            // covers the container
+            let nr = r.range(1, 4);
+            let mut vals: Vec<u16> = Vec::new();
+            let mut pos = (start - base) as u64;
+            let per = t / nr;
+            for i in 0..nr {
+                let len = if i + 1 == nr { t - per * (nr - 1) } else { per };
+                for j in 0..len {
+                    vals.push((pos + j) as u16);
+                }
+                pos += len + 3;
+            }
+            let chunk = super::stream::Chunk { key: k as u16, runs: Some(super::stream::maximal_runs(&vals)), vals };
+            let (bytes, _) = super::stream::encode(&[chunk], false);
+            writeln!(out, "new b10").unwrap();
+            if r.chance(2, 3) {
+                writeln!(out, "insert_range b10 in:{} in:{}", base, base + 65535).unwrap();
+            } else {
+                writeln!(out, "insert_range b10 in:{} in:{}", start, start + t + 20).unwrap();
+            }
+            writeln!(out, "new b12").unwrap();
+            writeln!(out, "inter_ser b12 b10 {}", super::c05::hex(&bytes)).unwrap();
+            writeln!(out, "or {} b0 b0 b12", *r.pick(&["ao", "ar", "rr", "oo"])).unwrap();
+        }
+        9 => {
             // too many values, then remove_smallest (bitset -> array rebuild inside Container::remove_smallest)
             let extra = *r.pick(&[1u64, 2, 3, 100, 4000]);
             writeln!(out, "insert_range b0 in:{} ex:{}", start, start + t + extra).unwrap();
@@ -166,7 +193,14 @@ pub fn gen_case(r: &mut Rng, out: &mut String) {
     for _ in 0..r.range(2, 8) {
         let k = *r.pick(&keys);
         let base = k << 16;
-        match r.below(9) {
+        match r.below(10) {
+            9 => {
+                // a removal that starts inside chunk k (not on its edge) below everything the chunk holds and ends in a later
+                // chunk: chunk k is emptied as the FIRST, partly covered chunk of the range and must disappear
+                let s = base + *r.pick(&[1u64, 1, 63]);
+                let e = (base + 65536 * r.range(1, 2) + *r.pick(&[0u64, 10, 65535])).min(u32::MAX as u64);
+                writeln!(out, "remove_range b0 in:{} in:{}", s, e).unwrap()
+            }
             0 | 1 => writeln!(out, "insert b0 {}", base + r.below(40000)).unwrap(),
             2 | 3 => writeln!(out, "remove b0 {}", base + *r.pick(&[0u64, 1, 63, 64, 1000, 30000]) + r.below(3)).unwrap(),
             4 => writeln!(out, "remove_smallest b0 {}", r.range(0, 3)).unwrap(),
